@@ -74,12 +74,22 @@ static inline std::string dumpF64(double f) {
 
 // canonical dump, using the storage tag to tell float from double (the only thing that the
 // public API does not expose); everything else goes through the public API
-static inline std::string dump(JsonVariantConst v) {
+static inline std::string strip_obs(const std::string& d) {   // a child's dump without any "!OBS:..." marker
+  std::string r; size_t i = 0;
+  while (i < d.size()) { if (d.compare(i, 5, "!OBS:") == 0) { i += 5; while (i < d.size() && (isalnum((unsigned char)d[i]) || d[i] == '-')) i++; } else r += d[i++]; }
+  return r;
+}
+
+// While dumping, the other read-only observables of the public API are cross-checked against what iteration shows
+// (size(), nesting(), index and key lookup, is<>()); a disagreement is appended to the dump as "!OBS:<what>" and so
+// surfaces as a difference from the model.
+static inline std::string dumpN(JsonVariantConst v, size_t& nest, bool observe = true) {
+  nest = 0;
   const detail::VariantData* d = detail::VariantAttorney::getData(v);
   if (!d) return "n";
   using detail::VariantType;
   switch (d->type()) {
-    case VariantType::Null: return "n";
+    case VariantType::Null: return v.isNull() ? "n" : "n!OBS:isNull";
     case VariantType::Boolean: return v.as<bool>() ? "t" : "f";
     case VariantType::Float: return dumpF32(v.as<float>());
 #if ARDUINOJSON_USE_DOUBLE
@@ -106,27 +116,60 @@ static inline std::string dump(JsonVariantConst v) {
     }
     case VariantType::Array: {
       std::string out = "[";
-      bool first = true;
+      std::vector<std::string> kids;
+      size_t deepest = 0;
       for (JsonVariantConst e : v.as<JsonArrayConst>()) {
-        if (!first) out += ",";
-        first = false;
-        out += dump(e);
+        size_t n1; kids.push_back(dumpN(e, n1, observe));
+        if (n1 > deepest) deepest = n1;
       }
-      return out + "]";
+      for (size_t i = 0; i < kids.size(); i++) out += (i ? "," : "") + kids[i];
+      out += "]";
+      nest = deepest + 1;
+      std::string obs;
+      if (!observe) return out;
+      if (v.size() != kids.size() || v.as<JsonArrayConst>().size() != kids.size()) obs = "size";
+      else if (v.nesting() != nest) obs = "nesting";
+      else if (!v.is<JsonArrayConst>() || v.is<JsonObjectConst>() || v.isNull()) obs = "is";
+      else if (kids.size() <= 10) {
+        size_t dummy;
+        for (size_t i = 0; i < kids.size() && obs.empty(); i++) if (dumpN(v[i], dummy, false) != strip_obs(kids[i])) obs = "index" + std::to_string(i);
+        if (obs.empty() && !v[kids.size()].isUnbound()) obs = "index-past-end";
+      }
+      return obs.empty() ? out : out + "!OBS:" + obs;
     }
     case VariantType::Object: {
       std::string out = "{";
-      bool first = true;
+      std::vector<std::pair<std::string, std::string>> kids;
+      size_t deepest = 0;
       for (JsonPairConst kv : v.as<JsonObjectConst>()) {
-        if (!first) out += ",";
-        first = false;
-        out += hex(kv.key().c_str(), kv.key().size()) + ":" + dump(kv.value());
+        size_t n1; std::string dv = dumpN(kv.value(), n1, observe);
+        if (n1 > deepest) deepest = n1;
+        kids.emplace_back(std::string(kv.key().c_str(), kv.key().size()), dv);
       }
-      return out + "}";
+      for (size_t i = 0; i < kids.size(); i++) out += (i ? "," : "") + hex(kids[i].first) + ":" + kids[i].second;
+      out += "}";
+      nest = deepest + 1;
+      std::string obs;
+      if (!observe) return out;
+      if (v.size() != kids.size() || v.as<JsonObjectConst>().size() != kids.size()) obs = "size";
+      else if (v.nesting() != nest) obs = "nesting";
+      else if (!v.is<JsonObjectConst>() || v.is<JsonArrayConst>() || v.isNull()) obs = "is";
+      else if (kids.size() <= 10) {
+        size_t dummy;
+        for (size_t i = 0; i < kids.size() && obs.empty(); i++) {
+          // key lookup returns the first member holding that key
+          size_t first = i;
+          for (size_t j = 0; j < i; j++) if (kids[j].first == kids[i].first) { first = j; break; }
+          if (dumpN(v[kids[i].first], dummy, false) != strip_obs(kids[first].second)) obs = "key" + std::to_string(i);
+        }
+        if (obs.empty() && !v[std::string("\x01no-such-key\x02")].isUnbound()) obs = "absent-key";
+      }
+      return obs.empty() ? out : out + "!OBS:" + obs;
     }
   }
   return "?";
 }
+static inline std::string dump(JsonVariantConst v) { size_t n; return dumpN(v, n); }
 
 static inline std::string cfgString() {
   std::string s;
